@@ -126,6 +126,7 @@ def cases(tier, seed):
                              mode=str(rng.choice(["det", "auto", "he"], p=[0.75, 0.1, 0.15])), cons=cons, options=opts,
                              max_fun_evals=int(rng.choice([60, 100, 150])))
         out.append({"kind": "run", "spec": spec})
+    out += C.option_variation_slice("C17", tier, seed, kind="run")
     return out
 
 
